@@ -259,6 +259,11 @@ def combined_hash(ctr):
         for k in C.lookup_method(nm):
           if k.kind == 'inline':
             visit(k)
+        if not C.lookup_method(nm) and isinstance(n, ast.Call) and isinstance(n.func, ast.Name):
+          from pyvc.calls import auto_inline_contract
+          k = auto_inline_contract(c.file, nm)
+          if k is not None:
+            visit(k)
   visit(ctr)
   own = seen.pop(ctr.id, None)
   if own is None:
